@@ -32,10 +32,12 @@
 (* Configurations (all closed: explored to a fixed point):                 *)
 (*  MC_DebFile_sets          all 2^15 subsets of the 15-name universe      *)
 (*  MC_DebFile_orders(_quick) all injective member sequences of length     *)
-(*                           <= 5 (<= 4) over the universe                 *)
-(*  MC_DebFile_content(_emit) one valid package x every content (32 script *)
-(*                           subsets x data maps x md5 subsets)            *)
+(*                           <= 5 (<= 3) over the universe                 *)
+(*  MC_DebFile_content(_emit) one valid package x every content: 32 script *)
+(*                           subsets x partial maps {f1,f2,f3} ({f1,f2})   *)
+(*                           -> {11,12} x md5 subsets; PROBE lines         *)
 (*  MC_DebFile_matrix        the 5 x 5 compression matrix x every content  *)
+(*                           over one file name; PROBE lines               *)
 (*  MC_DebFile_nodecomp      xz/lzma decompressor unavailable              *)
 (* Invariants: AcceptIffWellFormed, PartsAreCandidates, OrderIrrelevant,   *)
 (* SpellingInvariant, ContentExact, ExtGateDead, LazyDecompress; action    *)
@@ -153,19 +155,22 @@ DNorm(path) == IF Len(path) >= 2 /\ path[1] = "." /\ path[2] = "/" THEN SubSeq(p
 
 DMapOf(pk, p)   == IF p = "control" THEN pk.c ELSE pk.d
 DNameOf(prt, p) == IF p = "control" THEN prt.ctrl ELSE prt.data
-\* the tarball as dpkg-deb writes it (D5): every member is './name'
-DTar(fmap)      == {[path |-> <<".", "/", n>>, blob |-> fmap[n]] : n \in DOMAIN fmap}
+\* the tarball as dpkg-deb writes it (D5): every member is './name'; TarFile.getnames()
+DTarNames(fmap) == {<<".", "/", n>> : n \in DOMAIN fmap}
+\* './' + normalised name
 DLookup(path)   == <<".", "/">> \o DNorm(path)
 
+\* has_file: './' + fname in self.tgz().getnames()
 DHas(pk, prt, p, path) ==
     IF DTgz(DNameOf(prt, p)) # "tar" THEN [err |-> "DebError", found |-> FALSE]
-    ELSE [err |-> "", found |-> \E x \in DTar(DMapOf(pk, p)) : x.path = DLookup(path)]
+    ELSE [err |-> "", found |-> DLookup(path) \in DTarNames(DMapOf(pk, p))]
 
+\* get_file / get_content: self.tgz().extractfile('./' + fname).read(); KeyError from tarfile when absent
 DGet(pk, prt, p, path) ==
     IF DTgz(DNameOf(prt, p)) # "tar" THEN [err |-> "DebError", found |-> FALSE, blob |-> 0]
-    ELSE LET hit == {x \in DTar(DMapOf(pk, p)) : x.path = DLookup(path)} IN
-         IF hit = {} THEN [err |-> "", found |-> FALSE, blob |-> 0]      \* KeyError from tarfile
-         ELSE [err |-> "", found |-> TRUE, blob |-> (CHOOSE x \in hit : TRUE).blob]
+    ELSE LET k == DLookup(path) IN
+         IF k \notin DTarNames(DMapOf(pk, p)) THEN [err |-> "", found |-> FALSE, blob |-> 0]
+         ELSE [err |-> "", found |-> TRUE, blob |-> DMapOf(pk, p)[k[3]]]
 
 \* DebControl.scripts(): for each of MAINT_SCRIPTS, has_file then get_content
 DScripts(pk, prt) ==
@@ -278,9 +283,9 @@ AllDecomp == PartExtSet \subseteq Decompressors
 
 \* 'n', './n' and '/n' are answered identically
 SpellingInvariant == dst = "ok" =>
-    \A p \in PartIds, n \in QNames, s1 \in Spellings, s2 \in Spellings :
-        /\ DHas(pkg, prts, p, DSpell(s1, n)) = DHas(pkg, prts, p, DSpell(s2, n))
-        /\ DGet(pkg, prts, p, DSpell(s1, n)) = DGet(pkg, prts, p, DSpell(s2, n))
+    \A p \in PartIds, n \in QNames, s2 \in Spellings \ {"plain"} :
+        /\ DHas(pkg, prts, p, DSpell("plain", n)) = DHas(pkg, prts, p, DSpell(s2, n))
+        /\ DGet(pkg, prts, p, DSpell("plain", n)) = DGet(pkg, prts, p, DSpell(s2, n))
 
 \* every query returns what was packed (and nothing from the other part)
 ContentExact == (dst = "ok" /\ AllDecomp) =>
